@@ -99,12 +99,22 @@ class Check(object):
             out.append(self.judge(c, mres[a:a + k], ires[ia:ia + ik]))
         return out
 
-    def still_fails(self, model, c):
+    def still_fails(self, model, c, shape=None):
+        """predicate of the shrinker: the case still fails, and in the same way (same signature shape), so that
+        shrinking cannot drift from an unknown failure into a listed known finding"""
         try:
             v, d = self.evaluate(model, [c], interactive=True)[0]
         except Exception:
             return False, None
-        return v == 'violation', d
+        if v != 'violation':
+            return False, d
+        if shape is not None:
+            try:
+                if self.signature(self.normalize(c), d).get('shape') != shape:
+                    return False, d
+            except Exception:
+                return False, d
+        return True, d
 
     def extra_evidence(self):
         return {}
@@ -180,7 +190,11 @@ class Check(object):
             if nshrunk >= 60:
                 break
             nshrunk += 1
-            c2, d2 = shrink.shrink_case(c, lambda x: self.still_fails(model, x), budget=self.SHRINK_BUDGET) if (self.SHRINK and 'f' in c) else (c, d)
+            try:
+                shape0 = self.signature(c, d).get('shape')
+            except Exception:
+                shape0 = None
+            c2, d2 = shrink.shrink_case(c, lambda x: self.still_fails(model, x, shape0), budget=self.SHRINK_BUDGET) if (self.SHRINK and 'f' in c) else (c, d)
             if d2 is None:
                 d2 = d
             c2 = self.normalize(c2)
